@@ -300,4 +300,85 @@ theorem goodRound_completes_code :
     s.stopper = none ∧ s.ver = 1 ∧ s.hlock = none ∧ s.threads.map (·.env) = [some 1, some 1] := by
   decide
 
+/-- A second guarded round, with the scanned thread INSIDE A PRIMITIVE: thread 1 publishes itself for a
+primitive call before the round, is found published, and while thread 0 replaces its global table the primitive
+returns and thread 1 walks the exit loop of `enter_safepoint` (pause flag raised, not interrupted) and parks —
+scanned all the time; after the round it is unparked, retracts and dispatches with the new table. -/
+def primRound : List (Tid × Act) :=
+  [(0, .spawn)] ++ List.replicate 3 (0, .step) ++
+  [(1, .callPrim), (0, .setGlobal)] ++ List.replicate 4 (0, .step) ++   -- 1 in the primitive; 0: gate, stop_threads
+  List.replicate 5 (0, .step) ++ List.replicate 3 (0, .step) ++         -- stop requests; drain_env; self; scanBegin 1
+  List.replicate 3 (1, .step)                                           -- 1: primitive returns, exit loop, park()
+
+def primRoundRest : List (Tid × Act) := List.replicate 15 (0, .step) ++ List.replicate 3 (1, .step)
+
+theorem primRound_scans :
+    runG init primRound = run init primRound ∧
+    (run init primRound).threads.map (fun th => (th.pc, th.scanned))
+      = [(.acc .env 0 1, 0), (.parking .prim, 1)] := by decide
+
+theorem primRound_completes :
+    let s := runG init (primRound ++ primRoundRest)
+    s = run init (primRound ++ primRoundRest) ∧ s.stopper = none ∧
+    s.threads.map (fun th => (th.pc, th.scanned, th.env)) = [(.run, 0, some 1), (.run, 0, some 1)] := by decide
+
+/-- Non-vacuity of `inv_scan` / `scan_exclusive_partial_pointwise`: both hypotheses hold for thread 1 of
+`goodRound` (parked at the dispatch poll) and of `primRound` (in the exit loop of a primitive's safepoint). -/
+example : (((runG init goodRound).threads[1]'(by decide)).pc.safe = true) :=
+  scan_exclusive_partial_pointwise goodRound 1 _ (List.getElem?_eq_getElem (by decide)) (by decide)
+
+example : (((runG init primRound).threads[1]'(by decide)).pc.safe = true) :=
+  inv_scan (runG_inv primRound inv_init) (List.getElem?_eq_getElem (by decide)) (by decide)
+
+/-- Non-vacuity of `step_inv`: the guard accepts the stopper's next line in `goodRound`, and the line is
+executable. -/
+example : G (runG init goodRound) 0 .step = true ∧ (step (runG init goodRound) 0 .step).isSome = true := by
+  decide
+
+/-- Non-vacuity of `env_coherent_partial` (hypothesis: no round in progress — after a complete round, so that
+the conclusion is about the NEW table, version 1). -/
+example : (runG init (goodRound ++ goodRoundRest)).envOk = true ∧
+    (runG init (goodRound ++ goodRoundRest)).ver = 1 :=
+  ⟨env_coherent_partial _ (by decide), by decide⟩
+
+example : (runG code (primRound ++ primRoundRest)).envOk = true :=
+  env_coherent_partial_code _ (by decide)
+
+/-- Non-vacuity of `env_published_partial`: the last line of the round of `goodRound` (14 of the 15 remaining
+stopper steps taken; the stopper is at `resP .env 2`, past the end of the list). -/
+example :
+    let s := runG init (goodRound ++ List.replicate 14 (0, .step))
+    s.stopper = some 0 ∧ G s 0 .step = true ∧
+    (match step s 0 .step with
+     | some s' => s'.stopper.isNone && s'.ver == 1
+     | none => false) = true := by decide
+
+example (s' : State) (hs : step (runG init (goodRound ++ List.replicate 14 (0, .step))) 0 .step = some s')
+    (hend : s'.stopper = none) : s'.envOk = true :=
+  env_published_partial _ 0 s' (by decide) hs (by decide) hend
+
+/-! ## Clauses of the property not carried by a theorem
+
+* "for every interleaving of the stop request with a thread's entry to and exit from a safepoint": only the
+  interleavings that respect `G`.  Excluded — and the full statement is FALSE there — are: a stop request
+  reaching a thread between its last exit check and its retraction (`not_scan_exclusive`, K15a); a thread
+  spawned, or a host `interrupt()` issued or in flight, during a round (`not_env_coherent`, K15b).  Overlapping
+  rounds are excluded by `G` as well; for the current code (`State.fix`) that clause is implied by the heap lock:
+  `C16.scan_exclusive_fixed` / `C16.env_coherent_fixed` state the two theorems under the weaker guard `GFix`.
+* "resumes with state consistent with the operation's result": only the VERSION of the global table a thread
+  holds (`env`) is modelled; a collection changes nothing in the model.  That the table with that version
+  contains the completed definition, that a thread's stack, open upvalues and JIT frames are what the collector
+  or the table swap left, is not modelled.
+* "A definition or assignment … completed by one thread is seen by every thread afterwards": theorem only for
+  states with no round in progress; a thread spawned later inherits the spawner's table (model: `env := th.env`).
+* "blocked inside a primitive": one kind `prim` stands for `call_primitive_func`, `call_boxed_func`, `make_box`,
+  lock acquisition and the JIT's helper calls; that each of those real paths publishes the thread is the
+  regenerated table of C16 (`blocking_paths_publish`, with exceptions K16b).
+* "2..8 script threads running arbitrary mixes of computation, allocation …": any number of threads, but the
+  computation between shared accesses is not modelled (a thread at `run` owns its stack; the hook of the real
+  engine asserts that no instruction is dispatched while the thread is being scanned).
+* Relaxed atomics (the model is sequentially consistent), the raw pointer's validity after a thread exits
+  (`done` threads are skipped by pc, not by a dangling `ctx`).
+`goodRound_*`, `primRound_*` are TESTS of the model on two schedules (by `decide`), not general claims. -/
+
 end SteelVerif.C15
